@@ -17,11 +17,11 @@ from ..core import cz, clist, copt, cstr, czlist
 
 ID = "C14"
 THEOREMS = [
-    "C14_parse_format_move", "C14_parse_stable", "C14_parse_denotes", "C14_parse_partition",
-    "C14_denotes_functional", "C14_unspecified_examples",
+    "C14_parse_format_move", "C14_format_denotes", "C14_parse_stable", "C14_parse_denotes", "C14_denotes_functional",
+    "C14_parse_partition", "C14_unspecified_examples",
     "C14_rejects_empty", "C14_rejects_foreign", "C14_rejects_count_without_direction",
     "C14_rejects_drops_without_direction", "C14_rejects_count_mismatch", "C14_rejects_trailing",
-    "C14_game_moves", "C14_game_refusals", "C14_str_nat_value", "C14_glyph_tie", "C14_regex_tie",
+    "C14_game_moves", "C14_game_nosplit", "C14_game_badmove", "C14_str_nat_value", "C14_glyph_tie", "C14_regex_tie",
 ]
 MODEL_TARGETS = ["model/Tak.vo", "model/Harness.vo", "model/Lit.vo", "model/Ptn.vo"]
 TRUSTED_BASE = [
@@ -195,6 +195,15 @@ def obs_vs_ref(o, r):
 
 def _codes(s):
     return [ord(c) for c in s]
+
+
+def _run(cs):
+    """cs.run(), repeated once when a shard was killed from outside (status -9: memory pressure on a shared machine)"""
+    failing, shard_fail, ns = cs.run()
+    if any("status -9" in str(f.get("error", "")) for f in shard_fail):
+        core.log(f"[{ID}] {cs.name}: {len(shard_fail)} shard(s) killed, running the family again")
+        failing, shard_fail, ns = cs.run()
+    return failing, shard_fail, ns
 
 
 # --------------------------------------------------------------------------
@@ -712,15 +721,15 @@ def correspondence(run):
 
     # 0. unicode tables
     cs = _unicode_cases(run)
-    failing, shard_fail, ns = cs.run()
+    failing, shard_fail, ns = _run(cs)
     run.oblige(f"tie:unicode classes of re (\\s, \\d exact; \\w on ASCII) ({ns} shards)", not shard_fail and not failing,
                str(shard_fail or [cs.model_view(cs.terms[0])])[:1500])
-    run.count(0x110000, 0, "\\s, \\d range tables of the live re module over all code points compared with the model's tables", [], label="unicode")
+    run.count(3, 0, "\\s, \\d range tables of the live re module over all code points compared with the model's tables", [], label="unicode")
 
     # 1. all moves of sizes 3-8
     allm = _all_moves()
     cs = _move_cases(run, "moves", allm)
-    failing, shard_fail, ns = cs.run()
+    failing, shard_fail, ns = _run(cs)
     run.oblige(f"correspondence:moves ({ns} shards)", not shard_fail, str(shard_fail)[:1500])
     dist = {}
     for n, m in allm:
@@ -737,7 +746,7 @@ def correspondence(run):
     # 1b. out-of-universe moves through format_move
     wild = _wild_moves(rng, 2000 if run.quick else 40000)
     cs = _move_cases(run, "wild", wild)
-    failing, shard_fail, ns = cs.run()
+    failing, shard_fail, ns = _run(cs)
     run.oblige(f"correspondence:wild-moves ({ns} shards)", not shard_fail, str(shard_fail)[:1500])
     run.count(len(wild), sum(1 for _, m in wild if m.slides and (sum(m.slides) >= 10 or sum(m.slides) < 0)),
               "random moves outside the universe (coordinates and drops in -40..40, up to 10 drops): format_move text and the parse of it; "
@@ -749,7 +758,7 @@ def correspondence(run):
     # 2. every string up to a length bound
     maxlen = 3 if run.quick else 4
     cs, total, nacc, nun, crashes = _string_blocks(run, maxlen)
-    failing, shard_fail, ns = cs.run()
+    failing, shard_fail, ns = _run(cs)
     run.oblige(f"correspondence:strings<= {maxlen} ({ns} blocks)", not shard_fail, str(shard_fail)[:1500])
     run.count(total, nacc, f"every string of length <= {maxlen} over {PTN_ALPHABET!r} + {FOREIGN!r}: Accept move / BadMove compared (Coq enumerates the "
               "strings, the harness passes the non-BadMove outcomes); non-trivial = accepted by the implementation",
@@ -783,7 +792,7 @@ def correspondence(run):
     for name, strings, rule in (("grammar", gs, "grammar-shaped strings ([stone][count]file rank[dir][drops][stone]) up to length 9"),
                                 ("mutations", muts, "near-miss mutations (delete/duplicate/swap/replace/insert, incl. newline, blanks, non-ASCII digits) of valid move texts")):
         cs, nun, nacc, crashes = _explicit_cases(run, name, strings)
-        failing, shard_fail, ns = cs.run()
+        failing, shard_fail, ns = _run(cs)
         run.oblige(f"correspondence:{name} ({ns} shards)", not shard_fail, str(shard_fail)[:1500])
         run.count(len(strings), nacc, rule + "; non-trivial = accepted on the specified fragment",
                   [{"text": strings[len(strings) // 2]}], {"unspecified_skipped": nun}, label=name)
@@ -798,14 +807,14 @@ def correspondence(run):
     # 4. games
     texts = [(k, t, observe_game(ptn, t), e) for k, t, e in _game_texts(run)]
     cs = _game_cases(run, "games", texts, GAME_CHECK)
-    failing, shard_fail, ns = cs.run()
+    failing, shard_fail, ns = _run(cs)
     run.oblige(f"correspondence:games ({ns} shards)", not shard_fail, str(shard_fail)[:1500])
     real = []
     nun = 0
     if failing:
         again = [(m["kind"], m["text"], observe_game(ptn, m["text"]), m["expected"]) for m in failing]
         cs2 = _game_cases(run, "games_unspec", again, GAME_UNSPEC)
-        failing2, shard_fail2, ns2 = cs2.run()
+        failing2, shard_fail2, ns2 = _run(cs2)
         run.oblige(f"correspondence:games-unspecified ({ns2} shards)", not shard_fail2, str(shard_fail2)[:1500])
         real = failing2
         nun = len(failing) - len(failing2)
@@ -888,11 +897,11 @@ def replay(run, rp):
     if "text" in inp and rp.get("key", "").startswith("game:"):
         o = observe_game(ptn, inp["text"])
         cs = _game_cases(run, "replay", [(inp.get("kind", "replay"), inp["text"], o, None)], GAME_CHECK)
-        failing, shard_fail, _ = cs.run()
+        failing, shard_fail, _ = _run(cs)
         unspec = False
         if failing:
             cs2 = _game_cases(run, "replay_u", [(inp.get("kind", "replay"), inp["text"], o, None)], GAME_UNSPEC)
-            f2, sf2, _ = cs2.run()
+            f2, sf2, _ = _run(cs2)
             unspec = not f2 and not sf2
         exp = inp.get("expected")
         wrong_render = bool(exp) and not (o[0] == "GO" and [takio.j_move(m) for m in o[2]] == exp["moves"]
@@ -902,14 +911,14 @@ def replay(run, rp):
     if "move" in inp:
         m = takio.mk_move(inp["move"])
         cs = _move_cases(run, "replay", [(inp.get("size"), m)])
-        failing, shard_fail, _ = cs.run()
+        failing, shard_fail, _ = _run(cs)
         s, err = _observe_format(ptn, m)
         return {"violates": bool(failing or shard_fail), "formatted": s, "format_error": err,
                 "parsed": None if s is None else j_obs(observe_parse(ptn, s)), "model": cs.model_view(cs.terms[0])}
     if "text" in inp:
         s = inp["text"]
         cs, nun, nacc, crashes = _explicit_cases(run, "replay", [s])
-        failing, shard_fail, _ = cs.run()
+        failing, shard_fail, _ = _run(cs)
         o = observe_parse(ptn, s)
         return {"violates": bool(failing or shard_fail or (o != "B" and o[0] == "C")), "impl": j_obs(o), "ref": ref_parse(s),
                 "model": cs.model_view(cs.terms[0])}
